@@ -606,6 +606,54 @@ fn check_eval_phase(ctx: &Ctx, rng: &mut Rng, model: &mut Model, rep: &mut Repor
     }
 }
 
+/// ONE multi-row INSERT (VALUES / INSERT..SELECT) large enough to split the root of the PRIMARY KEY /
+/// UNIQUE index in the middle of the statement, with a duplicate of a key that lies right of the
+/// split among its last rows.  Whatever the statement returns, the table must not hold two rows with
+/// the same key afterwards, and the statement must not report success.
+fn bulk_unique_scenario(ctx: &Ctx, rep: &mut Report) {
+    for (kind, ddl) in [("pk", "CREATE TABLE t (id INT PRIMARY KEY, v INT)"), ("unique", "CREATE TABLE t (k INT, id INT UNIQUE, v INT)")] {
+        for via_select in [false, true] {
+            let case = format!("bulk-unique {kind} {}", if via_select { "insert-select" } else { "values" });
+            rep.case(Some(&case));
+            rep.count("bulk_unique_scenarios");
+            let mut dbh = DbT::create(ctx, &format!("c09-bulk-{kind}-{}", via_select as u8));
+            if matches!(dbh.exec_limit(ddl, 60), Out::Err(_) | Out::Panic(_)) { rep.count("bulk_unique_setup_failed"); continue; }
+            let n = 4000i64;
+            let dup = 3900i64;
+            let rowsql = |i: i64| if kind == "pk" { format!("({i}, {})", i % 7) } else { format!("({}, {i}, {})", i + 100_000, i % 7) };
+            let sql = if via_select {
+                let _ = dbh.exec_limit(if kind == "pk" { "CREATE TABLE src (id INT, v INT)" } else { "CREATE TABLE src (k INT, id INT, v INT)" }, 60);
+                let mut ok = true;
+                for chunk in (1..=n).collect::<Vec<_>>().chunks(500) {
+                    let s = format!("INSERT INTO src VALUES {}", chunk.iter().map(|i| rowsql(*i)).collect::<Vec<_>>().join(", "));
+                    if matches!(dbh.exec_limit(&s, 120), Out::Err(_) | Out::Panic(_)) { ok = false; }
+                }
+                let _ = dbh.exec_limit(&format!("INSERT INTO src VALUES {}", rowsql(dup)), 60);
+                if !ok { rep.count("bulk_unique_setup_failed"); continue; }
+                "INSERT INTO t SELECT * FROM src".to_string()
+            } else {
+                let mut rows: Vec<String> = (1..=n).map(rowsql).collect();
+                rows.push(rowsql(dup));
+                format!("INSERT INTO t VALUES {}", rows.join(", "))
+            };
+            let out = dbh.exec_limit(&sql, 300);
+            let got = match &out { Out::Err(_) => "err", Out::Panic(_) => "panic", _ => "ok" };
+            // full-row select (a non-prefix projection is a listed C14 defect)
+            let keycol = if kind == "pk" { 0 } else { 1 };
+            let ids: Vec<Vec<String>> = match dbh.exec_limit("SELECT * FROM t", 120) { Out::Rows(r) => r.into_iter().map(|row| vec![row.get(keycol).cloned().unwrap_or_default()]).collect(), o => { rep.oracle_fail(case.clone(), format!("SELECT * FROM t after the bulk INSERT: {o:?}"), format!("cons:{kind}:insert:bulk-root-split:scan-error")); continue; } };
+            let mut seen = std::collections::BTreeMap::new();
+            for r in &ids { *seen.entry(r.get(0).cloned().unwrap_or_default()).or_insert(0usize) += 1; }
+            let dups: Vec<(String, usize)> = seen.into_iter().filter(|(_, c)| *c > 1).collect();
+            if !dups.is_empty() {
+                rep.oracle_fail(case.clone(), format!("one INSERT of {} rows with a duplicate of key {dup} among its last rows returned {got}; the table now holds duplicate keys {:?} ({} rows)", n + 1, &dups[..dups.len().min(3)], ids.len()),
+                    format!("cons:{kind}:insert:bulk-root-split:duplicate-stored"));
+            } else if got == "ok" {
+                rep.oracle_fail(case.clone(), format!("one INSERT of {} rows containing key {dup} twice reported success ({} rows stored)", n + 1, ids.len()), format!("cons:{kind}:insert:bulk-root-split:accepted"));
+            } else { rep.count("bulk_unique_ok"); }
+        }
+    }
+}
+
 pub fn run(ctx: &Ctx) -> Report {
     let mut rep = Report::new(
         "sql_cons",
@@ -615,7 +663,7 @@ pub fn run(ctx: &Ctx) -> Report {
          random layer: schemas p/c/g/e with random constraint mix, 12-27 statements over a 0..6 value domain (frequent collisions, 20% NULLs), at most 7 inserted rows per table \
          (an index/table leaf with >= 8 cells trips the known AVX2 leaf-search defect, exercised separately by scenario pk-ge8rows). WHERE clauses are single comparisons (two-valued \
          engine logic, C14, does not change which rows such a filter keeps). plus the M-code correspondence of the string CHECK evaluator on ~500 expression strings x 20 values. \
-         non-trivial = history in which the reference refuses at least one write",
+         bulk layer: one 4001-row INSERT (VALUES and INSERT..SELECT) that splits the PRIMARY KEY / UNIQUE index root mid-statement and repeats a key right of the split - no duplicate key may be stored. non-trivial = history in which the reference refuses at least one write",
     );
     let mut rng = Rng::new(ctx.seed ^ 0xC09);
     let mut model = Model::spawn(&ctx.model_bin, "sqlcons");
@@ -640,6 +688,7 @@ pub fn run(ctx: &Ctx) -> Report {
         run_case(ctx, &mut rep, &mut model, &cs, &format!("r{k}"));
     }
     let t_rand = t0.elapsed().as_secs_f64() - t_sys;
+    if ctx.replay.is_none() { bulk_unique_scenario(ctx, &mut rep); }
     check_eval_phase(ctx, &mut rng, &mut model, &mut rep);
     rep.notes.push(format!("seconds: systematic {:.1}, random {:.1}, checkeval {:.1}", t_sys, t_rand, t0.elapsed().as_secs_f64() - t_sys - t_rand));
     rep.notes.push(format!("model requests: {}", model.requests));
